@@ -1,4 +1,5 @@
 import LyModel.Tree.DTree
+import LyModel.Generated.ValidConsts
 /-!
 # Schema family S1x of component `valid` (C02, C07): the shared S1 table plus what validation needs
 
@@ -39,11 +40,37 @@ def buildLevel : (fuel : Nat) → (d : Nat) → List (Nat × SNode) → List STr
       let (sibs, rest2) := buildLevel fuel d rest1
       (.mk i n ks :: sibs, rest2)
 
+/-- Which variant of the code is modelled, for the defects this component wrote repairs for (`true` = the defect is there).
+`Quirks.current` is what `tools/extractors/valid.py` found in the source tree the check runs against; the property theorems are
+stated for `Quirks.fixed` (full strength) with `_fails` witnesses for the defective variants. -/
+structure Quirks where
+  /-- F60: `lyd_validate_unique` uses a leaf's schema default whatever its ancestors -/
+  uniqueDefaultAlways : Bool
+  /-- F65: `lyd_new_implicit` completes only the innermost case of the data node it found -/
+  implicitInnerCase : Bool
+  /-- F66: `lyd_validate_autodel_case_dflt` looks at the innermost case only -/
+  autodelDirectCase : Bool
+  /-- F63: `lyd_val_diff_add` records the deletion of a user-ordered instance without its original anchor -/
+  valDiffNoDeleteAnchor : Bool
+  /-- F17: `lyd_is_default` compares a leaf-list instance with any single default -/
+  isDefaultAnyOne : Bool
+  deriving Repr, BEq, DecidableEq, Inhabited
+
+def Quirks.current : Quirks :=
+  { uniqueDefaultAlways := Generated.uniqueDefaultAlways, implicitInnerCase := Generated.implicitInnerCase,
+    autodelDirectCase := Generated.autodelDirectCase, valDiffNoDeleteAnchor := Generated.valDiffNoDeleteAnchor,
+    isDefaultAnyOne := Generated.isDefaultAnyOne }
+
+def Quirks.fixed : Quirks :=
+  { uniqueDefaultAlways := false, implicitInnerCase := false, autodelDirectCase := false, valDiffNoDeleteAnchor := false,
+    isDefaultAnyOne := false }
+
 structure SchemaX where
   base : Schema
   top : List STree
   /-- `unique` statements: (list sid, leaf sids), in statement order per list -/
   uniques : List (Nat × List Nat) := []
+  q : Quirks := Quirks.current
   deriving Repr, Inhabited
 
 def SchemaX.ofSchema (S : Schema) (uniques : List (Nat × List Nat) := []) : SchemaX :=
